@@ -136,6 +136,26 @@ def run_variant(entry: tuple, prop: str) -> dict:
         shutil.rmtree(tmp, ignore_errors=True)
 
 
+def run_reformat(prop: str) -> dict:
+    """Behaviour-preserving whole-repository rewrite: reformat every source file with
+    another line length (the repository's own ruff).  Every check must stay silent."""
+    ruff = Path(sys.executable).with_name("ruff")
+    if not ruff.exists():
+        return {"id": "S-reformat-all", "status": "skipped", "why": "ruff not in the repository's environment"}
+    tmp = Path(tempfile.mkdtemp(prefix="sa-selftest-"))
+    try:
+        _copy_tree(tmp)
+        subprocess.run([str(ruff), "format", "--line-length", "120", "src", "examples"], cwd=str(tmp), capture_output=True, text=True, timeout=120)
+        env = dict(os.environ)
+        env["SA_REPO"] = str(tmp)
+        env["SA_NO_EVIDENCE"] = "1"
+        p = subprocess.run([sys.executable, "-m", "sa", prop, "--tier", "quick"], cwd=str(VERIF), env=env, capture_output=True, text=True, timeout=600)
+        ok = p.returncode == 0
+        return {"id": "S-reformat-all", "status": "ok" if ok else "WRONG", "expect": "silent", "rc": p.returncode, "tail": (p.stdout + p.stderr).strip().splitlines()[-3:] if not ok else []}
+    finally:
+        shutil.rmtree(tmp, ignore_errors=True)
+
+
 def seeded_variants(prop: str) -> list[Path]:
     out = []
     base = VERIF / "seeded"
@@ -173,8 +193,8 @@ def run(check: Check) -> None:
     entries = [e for e in CATALOGUE if prop in e[1]]
     seeds = seeded_variants(prop)
     results: list[dict] = []
-    with ThreadPoolExecutor(max_workers=min(16, max(1, len(entries) + len(seeds)))) as ex:
-        futs = [ex.submit(run_variant, e, prop) for e in entries] + [ex.submit(run_seed, s, prop) for s in seeds]
+    with ThreadPoolExecutor(max_workers=min(16, max(1, len(entries) + len(seeds) + 1))) as ex:
+        futs = [ex.submit(run_variant, e, prop) for e in entries] + [ex.submit(run_seed, s, prop) for s in seeds] + [ex.submit(run_reformat, prop)]
         for f in futs:
             results.append(f.result())
     ran = [r for r in results if r["status"] != "skipped"]
